@@ -119,6 +119,7 @@ func init() {
 			"auth:1:kA:1000:G1",       // a1
 			"auth:1:kA:2000:G1",       // a1': capacity differs
 			"auth:1:kA:1000:G1:debt",  // a1*: differs in the debt field only
+			"auth:1:kA:1000:G1:resig", // a1 again under a second valid signature: a different authorization
 			"auth:1:kB:1000:G1",       // a1'': carries device 2's key
 			"auth:1:kF:1000:G1",       // a1''': fresh key
 			"auth:2:kB:1000:G1",       // a2
@@ -140,7 +141,7 @@ func init() {
 		arg := opsArg{Name: "c04", Init: []string{"reg:G1:temp", "auth:1:kA:1000:G1", "auth:2:kB:7:G1", "now:100"}, RestartCheck: true}
 		ops := []string{
 			"rep:1:kA:now:500", "rep:1:kA:now:600", "rep:2:kB:now:5", "rep:2:kB:now:10", "rep:1:kA:now-1:neg",
-			"auth:3:kC:1000:G1", "auth:1:kX:1000:G1", "auth:2:kB:8:G1",
+			"auth:3:kC:1000:G1", "auth:1:kX:1000:G1", "auth:2:kB:8:G1", "auth:2:kB:7:G1:resig",
 			"rot", "impact", "restart",
 			"nowoff:3999", "nowoff:4000", "nowoff:6100", "nowoff:12000", "nowoff:100",
 		}
